@@ -29,6 +29,7 @@ internal/adapter/discovery/repository.go
 internal/adapter/health/circuit_breaker.go
 internal/adapter/proxy/olla/service.go
 internal/adapter/unifier/circuit_breaker.go
+internal/adapter/unifier/endpoint_manager.go
 internal/adapter/registry/memory_registry.go
 internal/adapter/registry/unified_memory_registry.go
 internal/adapter/unifier/default_unifier.go
